@@ -890,6 +890,7 @@ def run(ctx):
           "fly_raised_before_syntax_error": 0}
     probe_action_history(ctx, st)
     probe_imported_alternatives(ctx, st)
+    probe_inplace_lists(ctx, st)
     mcases = []
     meta = []
     wsl = [ord(c) for c in WS]
@@ -1201,6 +1202,47 @@ def probe_imported_alternatives(ctx, st):
     finally:
         shutil.rmtree(d, ignore_errors=True)
     st["imported_alternative_probes"] = n
+
+
+def probe_inplace_lists(ctx, st):
+    """actions in the yacc style ($$ = $1; push) mutate the list they are given: the sub-result list of
+    every reduction must be a list of its own, in all three routes"""
+    from parglare import GLRParser, Grammar, Parser
+    from lib import impl
+    text = "S: L ';' L;\nL: L 'x' | EMPTY;"
+
+    def push(_, n):
+        n[0].append(n[1])
+        return n[0]
+    actions = {"S": lambda _, n: (list(n[0]), list(n[2])), "L": [push, lambda _, n: n]}
+    n = 0
+    for w in ["x x ; x", "; x x", "x ;", ";", "x x x ; x x"]:
+        a, b = w.split(";")
+        want = (["x"] * a.count("x"), ["x"] * b.count("x"))
+        got = []
+        for route in range(3):
+            try:
+                with impl.time_limit(20), impl.quiet():
+                    g = Grammar.from_string(text)
+                    if route == 0:
+                        r = Parser(g, actions=actions).parse(w)
+                    elif route == 1:
+                        p1 = Parser(g, actions=actions, build_tree=True)
+                        r = p1.call_actions(p1.parse(w))
+                    else:
+                        p2 = GLRParser(g, actions=actions)
+                        r = p2.call_actions(p2.parse(w)[0])
+            except BaseException as e:  # noqa
+                r = "exc:" + type(e).__name__
+            got.append(r)
+            n += 1
+        if any(x != want for x in got):
+            ctx.violation("list-building actions that extend their first sub-result in place: %r gives %r "
+                          "(on-the-fly, call_actions, GLR), expected %r in all three" % (w, got, want),
+                          {"grammar": text, "actions": "L: [n[0].append(n[1]) -> n[0], n -> n]; S: (list(n[0]), list(n[2]))",
+                           "input": w}, key="inplace")
+            break
+    st["inplace_list_probes"] = n
 
 
 KF_NONE = "KF-C09-collect-drops-none"
